@@ -331,3 +331,7 @@ func (r *R) Exec(ctx sdk.Context, line string) (sdk.Context, string) {
 	}
 	return ctx, out.Class + " reward=" + reward + " " + r.state(ctx)
 }
+
+// State is the canonical projection of the farm state and the ledgers it talks about (the
+// observation line without the result prefix); used by the cross-module drivers (hx.Stater).
+func (r *R) State(ctx sdk.Context) string { return r.state(ctx) }
